@@ -120,8 +120,11 @@ Local Arguments for_up : simpl never.
 Local Arguments for_down : simpl never.
 
 (* ------------------------------------------------------------------ primitives *)
-Lemma item_at_ok (s : arr) i v : i < cnt s -> get (cells s) i = Live v -> item_at V s i = Ok (Some v).
-Proof. intros Hi Hg. unfold item_at, obj_at. destruct (Nat.ltb_spec i (cnt s)); [|lia]. rewrite Hg; auto. Qed.
+Lemma src_after_not_raw (o : option V) : src_after V after_move o <> Raw.
+Proof. destruct o; simpl; [apply mcell_not_raw|discriminate]. Qed.
+
+Lemma item_at_ok (s : arr) i o : i < cnt s -> get (cells s) i = mcell o -> item_at V s i = Ok o.
+Proof. intros Hi Hg. unfold item_at, obj_at. destruct (Nat.ltb_spec i (cnt s)); [|lia]. rewrite Hg; destruct o; auto. Qed.
 
 Lemma assign_val_ok (s : arr) o dst :
   dst < cnt s -> get (cells s) dst <> Raw -> assign_val V s o dst = Ok (upd V s dst (mcell o)).
@@ -135,21 +138,21 @@ Lemma add_back_ctor_ok (s : arr) o :
   add_back_ctor V s o = Ok (mkArr (set (cells s) (cnt s) (mcell o)) (S (cnt s))).
 Proof. intros Hc Hg. unfold add_back_ctor. destruct (Nat.ltb_spec (cnt s) (cap s)); [|lia]. rewrite Hg; auto. Qed.
 
-Lemma add_back_move_item_ok (s : arr) i v :
-  i < cnt s -> get (cells s) i = Live v -> cnt s < cap s -> get (cells s) (cnt s) = Raw ->
+Lemma add_back_move_item_ok (s : arr) i o :
+  i < cnt s -> get (cells s) i = mcell o -> cnt s < cap s -> get (cells s) (cnt s) = Raw ->
   add_back_move_item V after_move s i =
-    Ok (mkArr (set (set (cells s) (cnt s) (Live v)) i (mcell (after_move v))) (S (cnt s))).
+    Ok (mkArr (set (set (cells s) (cnt s) (mcell o)) i (src_after V after_move o)) (S (cnt s))).
 Proof.
-  intros. unfold add_back_move_item. rewrite (item_at_ok s i v) by auto. simpl.
+  intros. unfold add_back_move_item. rewrite (item_at_ok s i o) by auto. simpl.
   rewrite add_back_ctor_ok by auto. simpl. reflexivity.
 Qed.
 
-Lemma move_assign_items_ok (s : arr) src dst v :
-  src <> dst -> src < cnt s -> dst < cnt s -> get (cells s) src = Live v -> get (cells s) dst <> Raw ->
+Lemma move_assign_items_ok (s : arr) src dst o :
+  src <> dst -> src < cnt s -> dst < cnt s -> get (cells s) src = mcell o -> get (cells s) dst <> Raw ->
   move_assign_items V self_move after_move s src dst =
-    Ok (mkArr (set (set (cells s) dst (Live v)) src (mcell (after_move v))) (cnt s)).
+    Ok (mkArr (set (set (cells s) dst (mcell o)) src (src_after V after_move o)) (cnt s)).
 Proof.
-  intros. unfold move_assign_items. rewrite (item_at_ok s src v) by auto. simpl.
+  intros. unfold move_assign_items. rewrite (item_at_ok s src o) by auto. simpl.
   destruct (Nat.eqb_spec src dst); [contradiction|]. rewrite assign_val_ok by auto. simpl. reflexivity.
 Qed.
 
@@ -191,39 +194,39 @@ Section Insert.
    (an aliased element in front of the insertion point), tracked by the predicate Q m on the prefix after m fetches *)
 Variable src : source V.
 Variable index count : nat.
-Variable vals : nat -> V.
+Variable vals : nat -> option V.
 Variable Q : nat -> list cell -> Prop.
 
 Definition assign_hyp := forall m k dst (s : arr),
   m < count -> k < count -> index <= dst -> dst < cnt s -> get (cells s) dst <> Raw -> Q m (firstn index (cells s)) ->
   exists c', src_assign V src k dst s = Ok (mkArr c' (cnt s)) /\ length c' = length (cells s) /\
-    (forall j, index <= j -> get c' j = if j =? dst then Live (vals k) else get (cells s) j) /\
+    (forall j, index <= j -> get c' j = if j =? dst then mcell (vals k) else get (cells s) j) /\
     Q (S m) (firstn index c').
 Definition push_hyp := forall m k (s : arr),
   m < count -> k < count -> index <= cnt s -> cnt s < cap s -> get (cells s) (cnt s) = Raw -> Q m (firstn index (cells s)) ->
   exists c', src_push V src k s = Ok (mkArr c' (S (cnt s))) /\ length c' = length (cells s) /\
-    (forall j, index <= j -> get c' j = if j =? cnt s then Live (vals k) else get (cells s) j) /\
+    (forall j, index <= j -> get c' j = if j =? cnt s then mcell (vals k) else get (cells s) j) /\
     Q (S m) (firstn index c').
 
 Hypothesis Hassign : assign_hyp.
 Hypothesis Hpush : push_hyp.
 
 Variable s0 : arr.
-Variable f : nat -> V.
+Variable f : nat -> option V.
 Let n := cnt s0.
 Let C := cap s0.
 Hypothesis Hindex : index <= n.
 Hypothesis Hcap : n + count <= C.
 Hypothesis Hpos : 0 < count.
-Hypothesis Hlive : forall j, j < n -> get (cells s0) j = Live (f j).
+Hypothesis Hlive : forall j, j < n -> get (cells s0) j = mcell (f j).
 Hypothesis Hraw : forall j, n <= j -> get (cells s0) j = Raw.
 Hypothesis HQ0 : Q 0 (firstn index (cells s0)).
 
 Definition post (s : arr) : Prop :=
   cnt s = n + count /\ length (cells s) = C /\ Q count (firstn index (cells s)) /\
   (forall j, index <= j -> get (cells s) j =
-     if j <? index + count then Live (vals (j - index))
-     else if j <? n + count then Live (f (j - count)) else Raw).
+     if j <? index + count then mcell (vals (j - index))
+     else if j <? n + count then mcell (f (j - count)) else Raw).
 
 Ltac cases :=
   repeat match goal with
@@ -243,8 +246,8 @@ Proof.
   (* loop 1 *)
   pose (I1 := fun i (s : arr) => cnt s = count + i /\ length (cells s) = C /\ firstn index (cells s) = firstn index (cells s0) /\
      forall j, index <= j -> get (cells s) j =
-       if j <? n - count then Live (f j) else if j <? i then mcell (after_move (f j))
-       else if j <? n then Live (f j) else if j <? i + count then Live (f (j - count)) else Raw).
+       if j <? n - count then mcell (f j) else if j <? i then src_after V after_move (f j)
+       else if j <? n then mcell (f j) else if j <? i + count then mcell (f (j - count)) else Raw).
   destruct (for_up_inv I1 (fun i s => add_back_move_item V after_move s i) (n - count) n) with (fuel := S C) (i := n - count) (s := s0)
     as (s1 & -> & (Hc1 & Hl1 & Hp1 & Hg1)); try lia.
   { intros i s Hlo Hi (Hc & Hl & Hp & Hg).
@@ -262,9 +265,9 @@ Proof.
   simpl.
   (* loop 2 *)
   pose (I2 := fun i (s : arr) => cnt s = n + count /\ length (cells s) = C /\ firstn index (cells s) = firstn index (cells s0) /\
-     (forall j, index <= j -> j < i -> get (cells s) j = Live (f j)) /\
+     (forall j, index <= j -> j < i -> get (cells s) j = mcell (f j)) /\
      (forall j, i <= j -> j < i + count -> get (cells s) j <> Raw) /\
-     (forall j, i + count <= j -> get (cells s) j = if j <? n + count then Live (f (j - count)) else Raw)).
+     (forall j, i + count <= j -> get (cells s) j = if j <? n + count then mcell (f (j - count)) else Raw)).
   destruct (for_down_inv I2 (fun i s => move_assign_items V self_move after_move s (i - 1) (i + count - 1)) index (n - count))
     with (fuel := S C) (i := n - count) (s := s1) as (s2 & -> & (Hc2 & Hl2 & Hp2 & _ & Hn2 & Hg2)); try lia.
   { intros i s Hi Hhi (Hc & Hl & Hp & Hlo & Hmid & Hhigh).
@@ -274,9 +277,9 @@ Proof.
       + rewrite !firstn_set_ge by lia. auto.
       + intros j Hj1 Hj2. rewrite !get_set_other by lia. apply Hlo; lia.
       + intros j Hj1 Hj2. rewrite get_set by (rewrite length_set; lia).
-        destruct (Nat.eqb_spec j (i - 1)); [apply mcell_not_raw|].
+        destruct (Nat.eqb_spec j (i - 1)); [apply src_after_not_raw|].
         rewrite get_set by lia.
-        destruct (Nat.eqb_spec j (i + count - 1)); [discriminate|]. apply Hmid; lia.
+        destruct (Nat.eqb_spec j (i + count - 1)); [apply mcell_not_raw|]. apply Hmid; lia.
       + intros j Hj.
         rewrite get_set by (rewrite length_set; lia). rewrite get_set by lia.
         destruct (Nat.eqb_spec j (i - 1)); [lia|].
@@ -287,14 +290,14 @@ Proof.
     - apply Hmid; lia. }
   { unfold I2. repeat split; auto; try lia.
     - intros j Hj1 Hj2. rewrite Hg1 by lia. cases.
-    - intros j Hj1 Hj2. rewrite Hg1 by lia. cases; try apply mcell_not_raw; discriminate.
+    - intros j Hj1 Hj2. rewrite Hg1 by lia. cases; first [apply mcell_not_raw | apply src_after_not_raw].
     - intros j Hj. rewrite Hg1 by lia. cases. }
   simpl.
   (* loop 3 *)
   pose (I3 := fun i (s : arr) => cnt s = n + count /\ length (cells s) = C /\ Q (i - index) (firstn index (cells s)) /\
-     (forall j, index <= j -> j < i -> get (cells s) j = Live (vals (j - index))) /\
+     (forall j, index <= j -> j < i -> get (cells s) j = mcell (vals (j - index))) /\
      (forall j, i <= j -> j < index + count -> get (cells s) j <> Raw) /\
-     (forall j, index + count <= j -> get (cells s) j = if j <? n + count then Live (f (j - count)) else Raw)).
+     (forall j, index + count <= j -> get (cells s) j = if j <? n + count then mcell (f (j - count)) else Raw)).
   destruct (for_up_inv I3 (fun i s => src_assign V src (i - index) i s) index (index + count))
     with (fuel := S C) (i := index) (s := s2) as (s3 & -> & (Hc3 & Hl3 & HQ3 & Hlo3 & _ & Hhi3)); try lia.
   { intros i s Hge Hi (Hc & Hl & HQ & Hlo & Hmid & Hhigh).
@@ -322,7 +325,7 @@ Proof.
   destruct (Nat.eqb_spec count 0); [lia|]. destruct (Nat.ltb_spec (index + count) n); [lia|]. simpl.
   pose (I1 := fun i (s : arr) => cnt s = i /\ length (cells s) = C /\ Q (i - n) (firstn index (cells s)) /\
      forall j, index <= j -> get (cells s) j =
-       if j <? n then Live (f j) else if j <? i then Live (vals (j - index)) else Raw).
+       if j <? n then mcell (f j) else if j <? i then mcell (vals (j - index)) else Raw).
   destruct (for_up_inv I1 (fun i s => src_push V src (i - index) s) n (index + count)) with (fuel := S C) (i := n) (s := s0)
     as (s1 & -> & (Hc1 & Hl1 & HQ1 & Hg1)); try lia.
   { intros i s Hge Hi (Hc & Hl & HQ & Hg).
@@ -338,18 +341,18 @@ Proof.
   pose (I2 := fun i (s : arr) => cnt s = count + i /\ length (cells s) = C /\
      Q ((index + count - n) + (i - index)) (firstn index (cells s)) /\
      forall j, index <= j -> get (cells s) j =
-       if j <? i then Live (vals (j - index)) else if j <? n then Live (f j)
-       else if j <? index + count then Live (vals (j - index))
-       else if j <? i + count then Live (f (j - count)) else Raw).
+       if j <? i then mcell (vals (j - index)) else if j <? n then mcell (f j)
+       else if j <? index + count then mcell (vals (j - index))
+       else if j <? i + count then mcell (f (j - count)) else Raw).
   destruct (for_up_inv I2 (fun i s => s' <- add_back_move_item V after_move s i ;; src_assign V src (i - index) i s') index n)
     with (fuel := S C) (i := index) (s := s1) as (s2 & -> & (Hc2 & Hl2 & HQ2 & Hg2)); try lia.
   { intros i s Hge Hi (Hc & Hl & HQ & Hg).
-    assert (Hsrc : get (cells s) i = Live (f i)) by (rewrite Hg by lia; cases).
+    assert (Hsrc : get (cells s) i = mcell (f i)) by (rewrite Hg by lia; cases).
     assert (Hr : get (cells s) (cnt s) = Raw) by (rewrite Hg by lia; cases).
     rewrite (add_back_move_item_ok s i (f i) ltac:(lia) Hsrc ltac:(unfold cap; lia) Hr). simpl.
-    set (s' := mkArr (set (set (cells s) (cnt s) (Live (f i))) i (mcell (after_move (f i)))) (S (cnt s))).
+    set (s' := mkArr (set (set (cells s) (cnt s) (mcell (f i))) i (src_after V after_move (f i))) (S (cnt s))).
     assert (Hd : get (cells s') i <> Raw).
-    { unfold s'; simpl. rewrite get_set by (rewrite length_set; lia). rewrite Nat.eqb_refl. apply mcell_not_raw. }
+    { unfold s'; simpl. rewrite get_set by (rewrite length_set; lia). rewrite Nat.eqb_refl. apply src_after_not_raw. }
     assert (HQs : Q ((index + count - n) + (i - index)) (firstn index (cells s'))).
     { unfold s'; simpl. rewrite !firstn_set_ge by lia. auto. }
     destruct (Hassign ((index + count - n) + (i - index)) (i - index) i s' ltac:(lia) ltac:(lia) ltac:(lia) ltac:(unfold s'; simpl; lia) Hd HQs) as (c' & He & Hl' & Hg' & HQ').
@@ -375,6 +378,7 @@ Qed.
 End Insert.
 
 (* ================================================================== list-level statements *)
+(* elements are `option V`: Some v = an object holding v, None = a moved-from object *)
 Lemma get_ext (a b : list cell) : length a = length b -> (forall j, get a j = get b j) -> a = b.
 Proof. intros Hl H. apply (nth_ext _ _ Raw Raw); auto. intros j _. apply H. Qed.
 
@@ -384,46 +388,73 @@ Proof. intros. unfold get. apply nth_firstn_lt; auto. Qed.
 Lemma length_lives_raws (l : list V) r : length (lives l ++ raws r) = length l + r.
 Proof. unfold lives, raws. rewrite app_length, map_length, repeat_length. reflexivity. Qed.
 
-Lemma firstn_lives_raws (l : list V) r k : k <= length l -> firstn k (lives l ++ raws r) = lives (firstn k l).
+Lemma length_objs_raws (l : list (option V)) r : length (objs l ++ raws r) = length l + r.
+Proof. unfold objs, raws. rewrite app_length, map_length, repeat_length. reflexivity. Qed.
+
+Lemma get_objs_raws (l : list (option V)) r j :
+  get (objs l ++ raws r) j = if j <? length l then mcell (nth j l None) else Raw.
 Proof.
-  intros. unfold lives. rewrite firstn_app, map_length. replace (k - length l) with 0 by lia.
-  simpl. rewrite app_nil_r. apply firstn_map.
+  unfold get, objs, raws. destruct (Nat.ltb_spec j (length l)).
+  - rewrite app_nth1 by (rewrite map_length; auto).
+    rewrite (nth_indep _ Raw (mcell None)) by (rewrite map_length; auto). apply map_nth.
+  - rewrite app_nth2 by (rewrite map_length; auto). apply nth_repeat.
 Qed.
 
-Lemma nth_spec (l mid : list V) index j d :
+Lemma lives_objs (l : list V) : lives l = objs (map Some l).
+Proof. unfold lives, objs. rewrite map_map. reflexivity. Qed.
+
+(* an all-live array is the special case map Some *)
+Lemma arr_of_arr_ofo (l : list V) r : arr_of l r = arr_ofo (map Some l) r.
+Proof. unfold arr_of, arr_ofo. rewrite lives_objs, map_length. reflexivity. Qed.
+
+Lemma nth_spec {A} (l mid : list A) index j d :
   index <= length l ->
   nth j (firstn index l ++ mid ++ skipn index l) d =
     if j <? index then nth j l d else if j <? index + length mid then nth (j - index) mid d else nth (j - length mid) l d.
 Proof.
   intros Hi. assert (Hf : length (firstn index l) = index) by (rewrite firstn_length; lia).
   destruct (Nat.ltb_spec j index).
-  - rewrite app_nth1 by lia. apply nth_firstn_lt; auto.
+  - rewrite app_nth1 by lia. revert Hi H. clear. revert index j. induction l; intros index j Hi H; destruct index, j; simpl in *; auto; try lia. apply IHl; lia.
   - rewrite app_nth2 by lia. rewrite Hf. destruct (Nat.ltb_spec j (index + length mid)).
     + rewrite app_nth1 by lia. reflexivity.
-    + rewrite app_nth2 by lia. rewrite nth_skipn_. f_equal. lia.
+    + rewrite app_nth2 by lia. revert Hi H H0. clear. intros.
+      assert (Hs : forall (l : list A) m k, nth k (skipn m l) d = nth (m + k) l d).
+      { induction l0; intros m k; destruct m; simpl; auto. destruct k; auto. }
+      rewrite Hs. f_equal. lia.
 Qed.
 
-Lemma length_spec (l mid : list V) index : index <= length l ->
+Lemma length_spec {A} (l mid : list A) index : index <= length l ->
   length (firstn index l ++ mid ++ skipn index l) = length l + length mid.
 Proof. intros. rewrite !app_length, firstn_length, skipn_length. lia. Qed.
 
 (* from the pointwise post-condition to the list equality *)
-Lemma insert_finish (l mid : list V) r index (c' : list cell) d :
+Lemma insert_finish (l mid : list (option V)) r index (c' : list cell) :
   index <= length l -> length mid <= r ->
   length c' = length l + r ->
-  (forall j, j < index -> get c' j = Live (nth j l d)) ->
+  (forall j, j < index -> get c' j = mcell (nth j l None)) ->
   (forall j, index <= j -> get c' j =
-     if j <? index + length mid then Live (nth (j - index) mid d)
-     else if j <? length l + length mid then Live (nth (j - length mid) l d) else Raw) ->
-  c' = lives (firstn index l ++ mid ++ skipn index l) ++ raws (r - length mid).
+     if j <? index + length mid then mcell (nth (j - index) mid None)
+     else if j <? length l + length mid then mcell (nth (j - length mid) l None) else Raw) ->
+  c' = objs (firstn index l ++ mid ++ skipn index l) ++ raws (r - length mid).
 Proof.
   intros Hi Hm Hl Hlo Hhi. apply get_ext.
-  - rewrite length_lives_raws, length_spec by auto. lia.
-  - intros j. rewrite (get_lives_raws _ _ _ d), length_spec, nth_spec by auto.
+  - rewrite length_objs_raws, length_spec by auto. lia.
+  - intros j. rewrite get_objs_raws, length_spec, nth_spec by auto.
     destruct (Nat.ltb_spec j index).
     + rewrite Hlo by auto. destruct (Nat.ltb_spec j (length l + length mid)); [auto|lia].
     + rewrite Hhi by auto.
       destruct (Nat.ltb_spec j (index + length mid)), (Nat.ltb_spec j (length l + length mid)); auto; lia.
+Qed.
+
+Lemma arr_ofo_pre (l : list (option V)) r :
+  let s0 := arr_ofo l r in
+  cnt s0 = length l /\ cap s0 = length l + r /\
+  (forall j, j < length l -> get (cells s0) j = mcell (nth j l None)) /\
+  (forall j, length l <= j -> get (cells s0) j = Raw).
+Proof.
+  simpl. unfold cap; simpl. rewrite length_objs_raws. repeat split; auto.
+  - intros j Hj. rewrite get_objs_raws. destruct (Nat.ltb_spec j (length l)); [auto|lia].
+  - intros j Hj. rewrite get_objs_raws. destruct (Nat.ltb_spec j (length l)); [lia|auto].
 Qed.
 
 Lemma arr_of_pre (l : list V) r d :
@@ -437,105 +468,137 @@ Proof.
   - intros j Hj. rewrite (get_lives_raws _ _ _ d). destruct (Nat.ltb_spec j (length l)); [lia|auto].
 Qed.
 
+Lemma obj_at_mcell (c : list cell) i o : get c i = mcell o -> obj_at V c i = Ok o.
+Proof. intros H. unfold obj_at. rewrite H. destruct o; reflexivity. Qed.
+
 (* an argument ArrayShifter may be handed: a temporary / external value, or an element in FRONT of the insertion
    point (Array::Insert copies every other aliased element into an ArrayItemHandler first) *)
 Definition arg_ok (index : nat) (x : arg V) : Prop := match x with ArgVal _ => True | ArgRef p => p < index end.
-Definition arg_val (l : list V) (d : V) (x : arg V) : V := match x with ArgVal v => v | ArgRef p => nth p l d end.
+Definition arg_val (l : list (option V)) (x : arg V) : option V :=
+  match x with ArgVal v => Some v | ArgRef p => nth p l None end.
 
-Lemma read_arg_prefix (s s0 : arr) index (l : list V) d x :
+Lemma read_arg_prefix (s s0 : arr) index (l : list (option V)) x :
   arg_ok index x -> index <= length l ->
   firstn index (cells s) = firstn index (cells s0) ->
-  (forall j, j < length l -> get (cells s0) j = Live (nth j l d)) ->
-  read_arg V s x = Ok (Some (arg_val l d x)).
+  (forall j, j < length l -> get (cells s0) j = mcell (nth j l None)) ->
+  read_arg V s x = Ok (arg_val l x).
 Proof.
-  intros Hx Hi Hp Hl. destruct x as [v|p]; simpl; auto. simpl in Hx. unfold obj_at.
+  intros Hx Hi Hp Hl. destruct x as [v|p]; simpl; auto. simpl in Hx. apply obj_at_mcell.
   rewrite <- (get_firstn (cells s) index p) by auto. rewrite Hp. rewrite get_firstn by auto.
-  rewrite Hl by lia. reflexivity.
+  apply Hl. lia.
 Qed.
 
-(* sources that only read: count copies of one item, or a forward range *)
-Lemma pure_source_hyps (src : source V) (s0 : arr) index count (l : list V) d (xs : nat -> arg V) :
-  index <= length l ->
-  (forall j, j < length l -> get (cells s0) j = Live (nth j l d)) ->
-  (forall k, k < count -> arg_ok index (xs k)) ->
-  (forall k dst s, k < count -> src_assign V src k dst s = (v <- read_arg V s (xs k) ;; assign_val V s v dst)) ->
-  (forall k s, k < count -> src_push V src k s = (v <- read_arg V s (xs k) ;; add_back_ctor V s v)) ->
-  assign_hyp src index count (fun k => arg_val l d (xs k)) (fun _ p => p = firstn index (cells s0)) /\
-  push_hyp src index count (fun k => arg_val l d (xs k)) (fun _ p => p = firstn index (cells s0)).
+(* sources that only read and always deliver the same objects [vals k] while the prefix below index is untouched *)
+Lemma pure_source_hyps (src : source V) (s0 : arr) index count (vals : nat -> option V) :
+  (forall k dst s, k < count -> firstn index (cells s) = firstn index (cells s0) ->
+     src_assign V src k dst s = assign_val V s (vals k) dst) ->
+  (forall k s, k < count -> firstn index (cells s) = firstn index (cells s0) ->
+     src_push V src k s = add_back_ctor V s (vals k)) ->
+  assign_hyp src index count vals (fun _ p => p = firstn index (cells s0)) /\
+  push_hyp src index count vals (fun _ p => p = firstn index (cells s0)).
 Proof.
-  intros Hi Hl Hok Ha Hp. split.
+  intros Ha Hp. split.
   - intros m k dst s Hm Hk Hd1 Hd2 Hd3 HQ.
-    rewrite Ha by auto. rewrite (read_arg_prefix s s0 index l d) by auto. simpl.
-    rewrite assign_val_ok by auto. unfold upd. simpl mcell.
+    rewrite Ha by auto. rewrite assign_val_ok by auto. unfold upd.
     assert (dst < length (cells s)) by (apply get_not_raw_lt; auto).
     eexists; split; [reflexivity|]. rewrite length_set. repeat split; auto.
     + intros j Hj. apply get_set; auto.
     + rewrite firstn_set_ge by auto. auto.
   - intros m k s Hm Hk Hc1 Hc2 Hr HQ.
-    rewrite Hp by auto. rewrite (read_arg_prefix s s0 index l d) by auto. simpl.
-    rewrite add_back_ctor_ok by auto. simpl mcell.
+    rewrite Hp by auto. rewrite add_back_ctor_ok by auto.
     eexists; split; [reflexivity|]. rewrite length_set. repeat split; auto.
     + intros j Hj. apply get_set; auto.
     + rewrite firstn_set_ge by auto. auto.
 Qed.
 
-Lemma insert_pure_refines (src : source V) (l : list V) r index (mid : list V) d (xs : nat -> arg V) :
+Lemma insert_pure_refines (src : source V) (l : list (option V)) r index (mid : list (option V)) :
   index <= length l -> length mid <= r -> 0 < length mid ->
-  (forall k, k < length mid -> arg_ok index (xs k)) ->
-  (forall k, k < length mid -> nth k mid d = arg_val l d (xs k)) ->
-  (forall k dst s, k < length mid -> src_assign V src k dst s = (v <- read_arg V s (xs k) ;; assign_val V s v dst)) ->
-  (forall k s, k < length mid -> src_push V src k s = (v <- read_arg V s (xs k) ;; add_back_ctor V s v)) ->
-  insert_nogrow_gen V self_move after_move true src (arr_of l r) index (length mid) =
-    Ok (arr_of (firstn index l ++ mid ++ skipn index l) (r - length mid)).
+  (forall k dst s, k < length mid -> firstn index (cells s) = firstn index (cells (arr_ofo l r)) ->
+     src_assign V src k dst s = assign_val V s (nth k mid None) dst) ->
+  (forall k s, k < length mid -> firstn index (cells s) = firstn index (cells (arr_ofo l r)) ->
+     src_push V src k s = add_back_ctor V s (nth k mid None)) ->
+  insert_nogrow_gen V self_move after_move true src (arr_ofo l r) index (length mid) =
+    Ok (arr_ofo (firstn index l ++ mid ++ skipn index l) (r - length mid)).
 Proof.
-  intros Hi Hm Hpos Hok Hmid Ha Hp.
-  destruct (arr_of_pre l r d) as (Hc & Hcap & Hlive & Hraw).
-  destruct (pure_source_hyps src (arr_of l r) index (length mid) l d xs Hi Hlive Hok Ha Hp) as (HA & HP).
-  destruct (insert_nogrow_gen_post src index (length mid) _ _ HA HP (arr_of l r) (fun j => nth j l d))
+  intros Hi Hm Hpos Ha Hp.
+  destruct (arr_ofo_pre l r) as (Hc & Hcap & Hlive & Hraw).
+  destruct (pure_source_hyps src (arr_ofo l r) index (length mid) (fun k => nth k mid None) Ha Hp) as (HA & HP).
+  destruct (insert_nogrow_gen_post src index (length mid) _ _ HA HP (arr_ofo l r) (fun j => nth j l None))
     as (s' & -> & (Hc' & Hl' & HQ' & Hg')); try (rewrite ?Hc, ?Hcap; lia); auto.
-  f_equal. destruct s' as [c' n']. simpl in *. unfold arr_of. rewrite length_spec by auto. f_equal; [|lia].
-  unfold cap in Hcap; simpl in Hcap. rewrite length_lives_raws in *.
-  apply (insert_finish l mid r index c' d); auto; try lia.
-  - rewrite Hl'. unfold cap, arr_of; simpl. apply length_lives_raws.
+  f_equal. destruct s' as [c' n']. simpl in *. unfold arr_ofo. rewrite length_spec by auto. f_equal; [|lia].
+  unfold cap in Hcap; simpl in Hcap. rewrite length_objs_raws in *.
+  apply (insert_finish l mid r index c'); auto; try lia.
+  - rewrite Hl'. unfold cap, arr_ofo; simpl. apply length_objs_raws.
   - intros j Hj. rewrite <- (get_firstn c' index j) by auto. rewrite HQ'. rewrite get_firstn by auto. apply Hlive; lia.
-  - intros j Hj. rewrite Hg' by auto.
-    destruct (Nat.ltb_spec j (index + length mid)); [rewrite Hmid by lia; auto|]. reflexivity.
+Qed.
+
+Lemma insert_count0_arr_ofo (src : source V) (l : list (option V)) r index :
+  index <= length l ->
+  insert_nogrow_gen V self_move after_move true src (arr_ofo l r) index 0 =
+    Ok (arr_ofo (firstn index l ++ [] ++ skipn index l) (r - 0)).
+Proof.
+  intros Hi. unfold insert_nogrow_gen. simpl. unfold cap; simpl. rewrite length_objs_raws.
+  destruct (Nat.leb_spec index (length l)); [|lia]. destruct (Nat.leb_spec (length l + 0) (length l + r)); [|lia].
+  simpl. rewrite firstn_skipn, Nat.sub_0_r. reflexivity.
+Qed.
+
+(* an object outside the array (a temporary / external value) as the source of count copies *)
+Theorem insert_const_refines (src : source V) (l : list (option V)) r index count (o : option V) :
+  index <= length l -> count <= r ->
+  (forall k dst s, src_assign V src k dst s = assign_val V s o dst) ->
+  (forall k s, src_push V src k s = add_back_ctor V s o) ->
+  insert_nogrow_gen V self_move after_move true src (arr_ofo l r) index count =
+    Ok (arr_ofo (firstn index l ++ repeat o count ++ skipn index l) (r - count)).
+Proof.
+  intros Hi Hc Ha Hp. destruct (Nat.eq_dec count 0) as [->|Hne].
+  - apply insert_count0_arr_ofo; auto.
+  - pose proof (insert_pure_refines src l r index (repeat o count)) as H.
+    rewrite repeat_length in H. apply H; auto; try lia.
+    + intros k dst s Hk _. rewrite Ha. f_equal. symmetry. apply nth_error_nth. rewrite nth_error_repeat; auto.
+    + intros k s Hk _. rewrite Hp. f_equal. symmetry. apply nth_error_nth. rewrite nth_error_repeat; auto.
 Qed.
 
 (* ---- InsertNogrow(array, index, count, const Item& item) ---- *)
-Theorem insert_copies_refines (l : list V) r index count (x : arg V) d :
+Theorem insert_copies_refines (l : list (option V)) r index count (x : arg V) :
   index <= length l -> count <= r -> arg_ok index x ->
-  insert_nogrow_copies V self_move after_move true (arr_of l r) index count x =
-    Ok (arr_of (firstn index l ++ repeat (arg_val l d x) count ++ skipn index l) (r - count)).
+  insert_nogrow_copies V self_move after_move true (arr_ofo l r) index count x =
+    Ok (arr_ofo (firstn index l ++ repeat (arg_val l x) count ++ skipn index l) (r - count)).
 Proof.
   intros Hi Hc Hx. unfold insert_nogrow_copies.
+  destruct (arr_ofo_pre l r) as (_ & _ & Hlive & _).
   destruct (Nat.eq_dec count 0) as [->|Hne].
-  - unfold insert_nogrow_gen. simpl. unfold cap; simpl. rewrite length_lives_raws.
-    destruct (Nat.leb_spec index (length l)); [|lia]. destruct (Nat.leb_spec (length l + 0) (length l + r)); [|lia].
-    simpl. rewrite firstn_skipn, Nat.sub_0_r. reflexivity.
-  - pose proof (insert_pure_refines (source_copies V x) l r index (repeat (arg_val l d x) count) d (fun _ => x)) as H.
-    rewrite repeat_length in H. apply H; auto; try lia.
-    intros k Hk. apply nth_error_nth. rewrite nth_error_repeat; auto.
+  - apply insert_count0_arr_ofo; auto.
+  - pose proof (insert_pure_refines (source_copies V x) l r index (repeat (arg_val l x) count)) as H.
+    rewrite repeat_length in H.
+    assert (Hn : forall k, k < count -> nth k (repeat (arg_val l x) count) None = arg_val l x).
+    { intros k Hk. apply nth_error_nth. rewrite nth_error_repeat; auto. }
+    apply H; auto; try lia.
+    + intros k dst s Hk Hpre. simpl. rewrite (read_arg_prefix s (arr_ofo l r) index l) by auto. simpl. rewrite Hn; auto.
+    + intros k s Hk Hpre. simpl. rewrite (read_arg_prefix s (arr_ofo l r) index l) by auto. simpl. rewrite Hn; auto.
 Qed.
 
 (* ---- InsertNogrow(array, index, begin, count) over a forward range ---- *)
-Theorem insert_range_refines (l : list V) r index (xs : list (arg V)) d :
+Theorem insert_range_refines (l : list (option V)) r index (xs : list (arg V)) :
   index <= length l -> length xs <= r -> Forall (arg_ok index) xs ->
-  insert_nogrow_range V self_move after_move true (arr_of l r) index xs =
-    Ok (arr_of (firstn index l ++ map (arg_val l d) xs ++ skipn index l) (r - length xs)).
+  insert_nogrow_range V self_move after_move true (arr_ofo l r) index xs =
+    Ok (arr_ofo (firstn index l ++ map (arg_val l) xs ++ skipn index l) (r - length xs)).
 Proof.
   intros Hi Hc Hx. unfold insert_nogrow_range.
+  destruct (arr_ofo_pre l r) as (_ & _ & Hlive & _).
   destruct xs as [|x0 xs'].
-  - unfold insert_nogrow_gen. simpl. unfold cap; simpl. rewrite length_lives_raws.
-    destruct (Nat.leb_spec index (length l)); [|lia]. destruct (Nat.leb_spec (length l + 0) (length l + r)); [|lia].
-    simpl. rewrite firstn_skipn, Nat.sub_0_r. reflexivity.
+  - apply insert_count0_arr_ofo; auto.
   - set (xs := x0 :: xs') in *.
-    pose proof (insert_pure_refines (source_range V xs) l r index (map (arg_val l d) xs) d (fun k => nth k xs x0)) as H.
-    rewrite map_length in H. apply H; auto; try (unfold xs; simpl; lia).
-    + intros k Hk. rewrite Forall_forall in Hx. apply Hx. apply nth_In; auto.
-    + intros k Hk. rewrite (nth_indep _ d (arg_val l d x0)) by (rewrite map_length; auto). apply map_nth.
-    + intros k dst s Hk. simpl. rewrite (nth_error_nth' xs x0) by auto. reflexivity.
-    + intros k s Hk. simpl. rewrite (nth_error_nth' xs x0) by auto. reflexivity.
+    pose proof (insert_pure_refines (source_range V xs) l r index (map (arg_val l) xs)) as H.
+    rewrite map_length in H.
+    assert (Hn : forall k, k < length xs -> nth k (map (arg_val l) xs) None = arg_val l (nth k xs x0)).
+    { intros k Hk. rewrite (nth_indep _ None (arg_val l x0)) by (rewrite map_length; auto). apply map_nth. }
+    assert (Hok : forall k, k < length xs -> arg_ok index (nth k xs x0)).
+    { intros k Hk. rewrite Forall_forall in Hx. apply Hx. apply nth_In; auto. }
+    apply H; auto; try (unfold xs; simpl; lia).
+    + intros k dst s Hk Hpre. unfold source_range; cbn [src_assign]. rewrite (nth_error_nth' xs x0) by auto.
+      rewrite (read_arg_prefix s (arr_ofo l r) index l) by auto. cbn [bind]. rewrite Hn; auto.
+    + intros k s Hk Hpre. unfold source_range; cbn [src_push]. rewrite (nth_error_nth' xs x0) by auto.
+      rewrite (read_arg_prefix s (arr_ofo l r) index l) by auto. cbn [bind]. rewrite Hn; auto.
 Qed.
 
 (* ================================================================== Remove(index, count) *)
@@ -546,29 +609,28 @@ Ltac cases2 :=
   | |- context [?a <=? ?b] => destruct (Nat.leb_spec a b)
   end; simpl; try lia; try congruence; auto.
 
-Theorem remove_refines (l : list V) r index count :
+Theorem remove_refines (l : list (option V)) r index count :
   index + count <= length l ->
-  remove_range V self_move after_move true (arr_of l r) index count =
-    Ok (arr_of (firstn index l ++ skipn (index + count) l) (r + count)).
+  remove_range V self_move after_move true (arr_ofo l r) index count =
+    Ok (arr_ofo (firstn index l ++ skipn (index + count) l) (r + count)).
 Proof.
   intros Hic. unfold remove_range. cbv zeta.
-  replace (cnt (arr_of l r)) with (length l) by reflexivity.
+  replace (cnt (arr_ofo l r)) with (length l) by reflexivity.
   destruct (Nat.leb_spec (index + count) (length l)); [|lia]. cbn [negb].
   destruct (Nat.eqb_spec count 0) as [->|Hne]; cbn [andb].
   { rewrite !Nat.add_0_r, firstn_skipn. reflexivity. }
-  destruct l as [|d l']; [simpl in Hic; lia|]. set (l := d :: l') in *.
-  destruct (arr_of_pre l r d) as (Hc & Hcap & Hlive & Hraw). set (n := length l) in *.
-  pose (f := fun j => nth j l d).
+  destruct (arr_ofo_pre l r) as (Hc & Hcap & Hlive & Hraw). remember (length l) as n eqn:Heqn.
+  pose (f := fun j => nth j l None).
   pose (I := fun i (s : arr) => cnt s = n /\ length (cells s) = n + r /\
-     (forall j, j < index -> get (cells s) j = Live (f j)) /\
-     (forall j, index <= j -> j < i - count -> get (cells s) j = Live (f (j + count))) /\
+     (forall j, j < index -> get (cells s) j = mcell (f j)) /\
+     (forall j, index <= j -> j < i - count -> get (cells s) j = mcell (f (j + count))) /\
      (forall j, i - count <= j -> j < i -> get (cells s) j <> Raw) /\
-     (forall j, i <= j -> get (cells s) j = if j <? n then Live (f j) else Raw)).
+     (forall j, i <= j -> get (cells s) j = if j <? n then mcell (f j) else Raw)).
   destruct (for_up_inv I (fun i s => move_assign_items V self_move after_move s i (i - count)) (index + count) n)
-    with (fuel := S (cap (arr_of l r))) (i := index + count) (s := arr_of l r)
+    with (fuel := S (cap (arr_ofo l r))) (i := index + count) (s := arr_ofo l r)
     as (s1 & -> & (Hc1 & Hl1 & Hlo1 & Hmid1 & Hn1 & Hhi1)); try (rewrite ?Hcap; lia).
   { intros i s Hlo Hi (Hcs & Hls & H1 & H2 & H3 & H4).
-    assert (Hsrc : get (cells s) i = Live (f i)) by (rewrite H4 by lia; cases2).
+    assert (Hsrc : get (cells s) i = mcell (f i)) by (rewrite H4 by lia; cases2).
     assert (Hdst : get (cells s) (i - count) <> Raw) by (apply H3; lia).
     rewrite (move_assign_items_ok s i (i - count) (f i)); try lia; auto.
     eexists; split; [reflexivity|]. unfold I; cbn [cells cnt]. rewrite !length_set. repeat split; auto.
@@ -578,29 +640,29 @@ Proof.
       + subst j. f_equal. f_equal. lia.
       + apply H2; lia.
     - intros j Hj1 Hj2. rewrite get_set by (rewrite length_set; lia).
-      destruct (Nat.eqb_spec j i); [apply mcell_not_raw|]. rewrite get_set_other by lia. apply H3; lia.
+      destruct (Nat.eqb_spec j i); [apply src_after_not_raw|]. rewrite get_set_other by lia. apply H3; lia.
     - intros j Hj. rewrite !get_set_other by lia. apply H4; lia. }
-  { unfold I. split; [exact Hc|]. split; [unfold arr_of; cbn [cells]; apply length_lives_raws|].
+  { unfold I. split; [exact Hc|]. split; [unfold arr_ofo; cbn [cells]; rewrite length_objs_raws, <- Heqn; reflexivity|].
     split; [intros j Hj; apply Hlive; lia|]. split; [intros j Hj1 Hj2; lia|].
-    split; [intros j Hj1 Hj2; rewrite Hlive by lia; discriminate|].
+    split; [intros j Hj1 Hj2; rewrite Hlive by lia; apply mcell_not_raw|].
     intros j Hj. cases2; first [apply Hlive; lia | apply Hraw; lia]. }
   simpl.
   destruct (remove_back_ok s1 count) as (c' & -> & Hl' & Hg'); try (unfold cap; lia).
   { intros j Hj. apply Hn1; lia. }
-  f_equal. unfold arr_of. rewrite Hc1.
+  f_equal. unfold arr_ofo. rewrite Hc1.
   assert (Hlen : length (firstn index l ++ skipn (index + count) l) = n - count).
-  { rewrite app_length, firstn_length, skipn_length. fold n. lia. }
+  { rewrite app_length, firstn_length, skipn_length. lia. }
   rewrite Hlen. f_equal.
   apply get_ext.
-  - rewrite length_lives_raws, Hlen, Hl'. unfold cap. lia.
-  - intros j. rewrite Hg', Hc1. rewrite (get_lives_raws _ _ _ d), Hlen.
+  - rewrite length_objs_raws, Hlen, Hl'. unfold cap. lia.
+  - intros j. rewrite Hg', Hc1. rewrite get_objs_raws, Hlen.
     destruct (Nat.ltb_spec j (n - count)).
     + destruct (Nat.leb_spec (n - count) j); [lia|]. simpl.
       destruct (Nat.lt_ge_cases j index).
-      * rewrite Hlo1 by auto. unfold f. f_equal. rewrite app_nth1 by (rewrite firstn_length; fold n; lia).
+      * rewrite Hlo1 by auto. unfold f. f_equal. rewrite app_nth1 by (rewrite firstn_length; lia).
         symmetry. apply nth_firstn_lt; auto.
       * rewrite Hmid1 by lia. unfold f. f_equal. rewrite app_nth2 by (rewrite firstn_length; lia).
-        rewrite firstn_length. fold n. replace (Nat.min index n) with index by lia.
+        rewrite firstn_length. replace (Nat.min index (length l)) with index by lia.
         rewrite nth_skipn_. f_equal. lia.
     + destruct (Nat.leb_spec (n - count) j); [|lia]. destruct (Nat.ltb_spec j n); simpl; auto.
       rewrite Hhi1 by lia. cases2.
